@@ -240,8 +240,10 @@ def c15(tier, seed):
             cases = typegen(run, [(1, False, ['E', 'A'], None)], 'g')
         else:
             # (depth-2 BFS over three tag defaults with 14 values each did not finish in an hour and 6 GB)
-            classes, max_vals, max_len = ['A', 'C', 'P'], 8, 70000
-            cases = typegen(run, [(1, True, ['E', 'I', 'A'], None), (5, True, ['E', 'I', 'A'], 'num=200')], 'g')
+            # and rich depth 1 over three tag defaults + 200 simulated deep types (11 434 cases x 8 values) ran for an hour in the
+            # typed LengthProbe run (PROPERTY Monotone is checked on the whole state graph)
+            classes, max_vals, max_len = ['A', 'C', 'P'], 6, 70000
+            cases = typegen(run, [(1, True, ['E'], None), (1, False, ['I', 'A'], None), (4, True, ['E', 'I', 'A'], 'num=25')], 'g')
         cpath = run.path('cases.ndjson')
         pl.write_cases(cases, cpath)
         empty = run.path('empty.ndjson')
